@@ -16,7 +16,7 @@ import numpy as np
 
 from simkit import procstate
 from simkit.addr import build_at_released_address
-from simkit.core import Counter, EventLog, Violation, hash_array
+from simkit.core import library_raised, Counter, EventLog, Violation, hash_array
 from simkit.rngseam import BEHAVIOURS, RngSeam
 from simkit.store import SimStore, StoreSeam
 
@@ -581,7 +581,14 @@ class OdeSeamEngine:
         with ctx.rng:
             for op in spec["ops"]:
                 ctx.step += 1
-                {"bvp": _op_bvp, "ivp": _op_ivp, "perturb": _op_perturb}[op[0]](ctx, op, state)
+                try:
+                    {"bvp": _op_bvp, "ivp": _op_ivp, "perturb": _op_perturb}[op[0]](ctx, op, state)
+                except Exception as exc:  # noqa: BLE001
+                    # library code called directly by the harness (transform helpers, held callables) failed
+                    if not library_raised(exc):
+                        raise
+                    ctx.violate("library-raise", op[0], type(exc).__name__, f"library code called during {op[0]} raised {exc!r} outside the solve itself; the run ends here")
+                    break
         procstate.restore()
         return {
             "digest": ctx.log.digest(), "violations": ctx.violations, "known_hits": ctx.known_hits, "faults": dict(ctx.faults), "probes": dict(ctx.probes),
